@@ -276,7 +276,8 @@ def _must_pass_or_back(b, starts, done, head):
 def rule_d_map(ctx):
     R = RuleResult("D-map", "the map's delegating operations perform the split-table operation they stand for on every path (clear, reserve, try_reserve, shrink_to, "
                    "shrink_to_fit, drain, remove, remove_entry: a frozen table read off the tree); every `insert*` operation of the map and of its entry handles "
-                   "moves the value it is given into the table (or hands it back) on every path — it is never just dropped")
+                   "moves the value it is given into the table (or hands it back) on every path — it is never just dropped; an allocation is pre-sized from the "
+                   "lower bound of a caller's size_hint only")
     from rules_cost import entry_points
     from rules_typestate import _must_pass
     T = ctx.facts.types
@@ -382,4 +383,41 @@ def rule_d_map(ctx):
     R.floor(6, "delegating map operations")
     if m < 5:
         R.anchor("insert-ops", "expected >= 5 insert operations taking a value, found %d" % m)
+    # pre-sizing uses the LOWER bound of a caller's size_hint only: the upper bound is advisory and may be usize::MAX for a short iterator
+    # (`(0..usize::MAX).take_while(..)`), so sizing an allocation from it panics with "capacity overflow" (or allocates without bound) where a
+    # reference map just collects the few elements
+    npre = 0
+    for b in ctx.facts.bodies.values():
+        hints = [c for c in ctx.calls(b) if c.method == "size_hint" and c.unresolved and c.dest is not None and not c.dest["proj"] and not b.is_cleanup(c.loc.bb)]
+        if not hints:
+            continue
+        hl = {c.dest["local"] for c in hints}
+        for c in ctx.calls(b):
+            lc = c.local_callee()
+            if lc is None or b.is_cleanup(c.loc.bb) or not (lc.name.startswith("with_capacity") or lc.name in ("reserve", "try_reserve")):
+                continue
+            T_ = ctx.facts.types
+            caps = [a for i_, a in enumerate(c.args) if a["k"] in ("copy", "move") and T_[a["place"]["ty"]].get("s") == "usize"]
+            for a in caps:
+                npre += 1
+                sl, _ = b.slice_back(c.loc, [a])
+                upper = None
+                for l_ in sl:
+                    ops = []
+                    if l_.i < len(b.stmts(l_.bb)):
+                        st_ = b.stmts(l_.bb)[l_.i]
+                        if st_["k"] == "assign":
+                            rv_ = st_["rv"]
+                            ops = [x for x in (rv_.get("op"), rv_.get("a"), rv_.get("b")) if isinstance(x, dict)] + list(rv_.get("ops", []))
+                    elif b.term(l_.bb)["k"] == "call":
+                        ops = list(b.term(l_.bb).get("args", []))
+                    for o in ops:
+                        if o.get("k") in ("copy", "move") and o["place"]["local"] in hl and o["place"]["proj"] and o["place"]["proj"][0].get("k") == "field" \
+                                and o["place"]["proj"][0].get("i") == 1:
+                            upper = l_
+                R.inst(fn=b.path, site=c.where(), presizing=lc.name, verdict="ok: from the lower bound" if upper is None else "VIOLATION")
+                if upper is not None:
+                    R.viol("%s:presized-from-upper-bound" % b.path, c.where(), "%s sizes %s from the upper bound of the caller's size_hint: advisory, possibly usize::MAX for a "
+                           "short iterator — a capacity-overflow panic or an unbounded allocation where a reference map collects the elements" % (b.path, lc.name))
+
     return R
